@@ -23,7 +23,7 @@ class Hvp:
         for eqn_name, jbs_row in self.jac0.blocks.items():
             expr = Integer(0)
             for var, jb in jbs_row.items():
-                den_var_addr = parse_den_var_addr(jb.DenVarAddr)
+                den_var_addr = parse_v_addr(jb)
                 match jb.DiffVarType:
                     case "scalar":
                         match jb.DeriType:
@@ -76,6 +76,20 @@ class Hvp:
                     self.jac1.add_block(eqn_name, var, jb1)
 
         self.blocks_sorted = self.jac1.blocks_sorted
+
+
+def parse_v_addr(jb: JacBlock):
+    """
+    The entries of v that multiply the derivative block: the columns of the block. DenVarAddr is the span
+    first column : last column + 1, which is not the set of columns if the variable is indexed by a slice with a step.
+    """
+    if jb.DiffVarType == 'vector' and isinstance(jb.DiffVar, IdxVar) and isinstance(jb.DiffVar.index, slice):
+        cols = jb.SpVarAddr
+        step = int(cols[1] - cols[0])
+        if step != 1:
+            stop = int(cols[-1]) + step
+            return slice(int(cols[0]), stop if stop >= 0 else None, step)
+    return parse_den_var_addr(jb.DenVarAddr)
 
 
 def parse_den_var_addr(den_var_addr: slice | int):
